@@ -9,7 +9,7 @@ from sim.ctx import RunCtx, make_scheduler, gen_sched, construct
 from sim import shrink as shr
 
 PROP = 'C03'
-QUICK_RUNS = 50000
+QUICK_RUNS = 70000
 THOROUGH_RUNS = 1000000
 QUICK_WALL = 110
 THOROUGH_WALL = 1500
